@@ -244,6 +244,62 @@ fn run(ctx: &Ctx, rep: &Report) {
         rep.eval(sets.len() as u64);
         rep.count("destination_sets", sets.len() as u64);
     }
+    // 1c. scriptlets with every shape of interpreter vector, through all nine scriptlet setters
+    {
+        let progs: Vec<Vec<String>> = vec![vec![], vec![String::new()], vec!["/bin/sh".into()], vec!["/bin/sh -e".into()], vec!["a b c".into()], vec![" ".into()], vec!["/usr/bin/lua".into(), "-x".into()], vec!["".into(), "".into()], (0..40).map(|i| format!("arg{i}")).collect()];
+        for (pi, prog) in progs.iter().enumerate() {
+            for which in 0..9usize {
+                rep.eval(1);
+                rep.nontrivial(hash_str(&format!("prog|{pi}|{which}")));
+                let r = guard(|| {
+                    let sc = rpm::Scriptlet::new("echo hello").flags(rpm::ScriptletFlags::from_bits_retain(if pi % 2 == 0 { 0 } else { 3 })).prog(prog.clone());
+                    let b = new_builder();
+                    let b = match which {
+                        0 => b.pre_install_script(sc),
+                        1 => b.post_install_script(sc),
+                        2 => b.pre_uninstall_script(sc),
+                        3 => b.post_uninstall_script(sc),
+                        4 => b.pre_trans_script(sc),
+                        5 => b.post_trans_script(sc),
+                        6 => b.pre_untrans_script(sc),
+                        7 => b.post_untrans_script(sc),
+                        _ => b.verify_script(sc),
+                    };
+                    b.build().map(|p| {
+                        let mut v = Vec::new();
+                        p.write(&mut v).map(|_| v.len())
+                    })
+                });
+                if let Err(p) = r {
+                    rep.violation(format!("panic:scriptlet-prog:{}", p.site()), format!("a scriptlet with the interpreter vector {prog:?} makes the builder panic: {}", p.message), json!({"kind": "scriptlet-prog", "prog": prog, "setter": which}), prog.len() as u64);
+                }
+            }
+        }
+        rep.count("scriptlet_interpreter_shapes", (progs.len() * 9) as u64);
+    }
+    // 1d. capability texts with very long name-list elements (no separator for 30-200 bytes)
+    {
+        let mut texts: Vec<String> = Vec::new();
+        for n in [30usize, 31, 32, 33, 34, 40, 63, 64, 65, 128, 200, 5000] {
+            texts.push(format!("{}=e", "a".repeat(n)));
+            texts.push(format!("cap_{}+p", "x".repeat(n)));
+            texts.push(format!("cap_chown,{}=e", "Z".repeat(n)));
+            texts.push(format!("{}=e", "é".repeat(n / 2)));
+        }
+        texts.push("cap_net_admincap_net_rawcap_chown+p".into());
+        texts.push("cap_checkpoint_restorecap_checkpoint_restore=eip".into());
+        for s in &texts {
+            rep.eval(1);
+            rep.nontrivial(hash_str(s) ^ 9);
+            let r = guard(|| FileOptions::new("/usr/bin/x").caps(s.clone()).map(|o| new_builder().with_file(&src, o).map(|b| b.build().map(|_| ()))));
+            match r {
+                Err(p) => rep.violation(format!("panic:caps:{}", p.site()), format!("capability text {:?}… makes the builder panic: {}", s.chars().take(48).collect::<String>(), p.message), json!({"kind": "caps", "text": s}), s.len() as u64),
+                Ok(Ok(_)) => rep.violation("caps:accepted-malformed:long-unknown-name".to_string(), format!("capability text with an unknown {}-byte name is accepted", s.len()), json!({"kind": "caps", "text": s}), s.len() as u64),
+                Ok(Err(_)) => {}
+            }
+        }
+        rep.count("long_capability_names", texts.len() as u64);
+    }
     // 2. capability strings through FileOptions::caps
     let ctoks = ["cap_chown", "CAP_SYSLOG", "all", "cap_bogus", ",", "=", "+", "-", "e", "i", "p", "x", " "];
     let clen = if ctx.is_dbg() { 3 } else { 5 };
